@@ -77,8 +77,8 @@ CLAIMED = {
              text="All 3 x 5 x 2 TLSH configurations; data lengths around the gates (0, 4, 49, 50, 51, 255, 256, 257, 700, ...), content classes incl. constant and two-valued data, force both ways, the module singleton; from_hash reload (bytes and header fields/code); distances object/object, bytes/bytes, mixed, both orders, distance_to.  Nilsimsa: targets, lengths 0..6 and longer, every byte cut, Hamming distance both orders.  Declared exception: the Pearson table is pinned from the repository.",
              ref="DESIGN.md section 7 C19"),
 
- 'C10': dict(tech="TLC: every call sequence of length <= 3 (4) over a per-kind 6-call alphabet enumerated by a model of state-free objects; sequences replayed on long-lived real objects, siblings and module singletons; TLC trace validation that every judged outcome equals the fresh-object outcome of the same call",
-             text="41 object kinds (all of the statement's list incl. module-level singletons keccak_*, blake*, blake2b/2s, tlsh, plus variants such as unpadded ECB/CBC, CTS modes, keyed long-output Skein, tree Skein): all sequences of length <= 2, <= 3 for the kinds with shared state (quick), <= 3 / 4 (thorough); alphabets contain the default call, a call with other per-call options, a call that raises (also midway), an unfinished incremental / auxiliary call, the call on a sibling, and the singleton or another message.  TLC decides functionality of call -> result at every step; correctness of the values is C01-C19.",
+ 'C10': dict(tech="TLC: every call sequence of length <= 3 (4) over a per-kind 7-call alphabet enumerated by a model of state-free objects; sequences replayed on long-lived real objects, siblings and module singletons; TLC trace validation that every judged outcome equals the fresh-object outcome of the same call",
+             text="41 object kinds (all of the statement's list incl. module-level singletons keccak_*, blake*, blake2b/2s, tlsh, plus variants such as unpadded ECB/CBC, CTS modes, keyed long-output Skein, tree Skein): all sequences of length <= 2, <= 3 for the kinds with shared state (quick), <= 3 / 4 (thorough); alphabets contain the default call, a call with other per-call options, a call that raises (also midway), an unfinished incremental / auxiliary call, the call on a sibling, the singleton or another message, and a call on a differently configured instance of the same class.  TLC decides functionality of call -> result at every step; correctness of the values is C01-C19.",
              ref="DESIGN.md section 7 C10"),
 }
 PENDING = "check not built yet in this tree (specification modules are being written; see DESIGN.md section 12 build order) - not claimed until its quick command runs clean"
